@@ -349,6 +349,25 @@ Definition delta_interp (in1c in2c out1 out2 pc cur : Z) : option Z :=
 Definition delta_shift (ref_inc ref_out cur : Z) : option Z :=
   Some (fx_add 32 cur (fx_sub 32 ref_out (fixed_from_i32 ref_inc))).
 
+(* read-fonts gvar.rs GlyphDelta::apply_scalar::<Fixed> / cvar.rs CvtDelta::apply_scalar:
+   Fixed::from_i32(delta) * scalar *)
+Definition delta_apply_scalar (d scalar : Z) : option Z := fixed_mul_chk (fixed_from_i32 d) scalar.
+(* cmap.rs Cmap12: one group (start_char, end_char, start_glyph); map_codepoint + lookup_glyph_id =
+   start_glyph_id.wrapping_add(codepoint.wrapping_sub(start_char_code)); None = no mapping *)
+Definition cmap12_one_group (cp start_c end_c start_g : Z) : option (option Z) :=
+  (* lo = 0, hi = 1: i = (lo + hi) / 2 *)
+  do s <- addu64 0 1 ;;
+  if cp <? start_c then Some None
+  else if end_c <? cp then (do _ <- addu64 (s / 2) 1 ;; Some None)
+  else Some (Some (wrap_u 32 (start_g + wrap_u 32 (cp - start_c)))).
+(* hmtx.rs advance / side_bearing index arithmetic: n long metrics, m extra side bearings;
+   returns the index into the long metrics resp. (0 = long metric, 1 = extra array, index) *)
+Definition hmtx_advance_ix (n gid : Z) : option (option Z) :=
+  Some (if gid <? n then Some gid else if 0 <? n then Some (n - 1) else None).
+Definition hmtx_lsb_ix (n m gid : Z) : option (option (Z * Z)) :=
+  Some (if gid <? n then Some (0, gid)
+        else let j := sat_u 64 (gid - n) in if j <? m then Some (1, j) else None).
+
 (* ---- correspondence case format (harness/src/bin/c20.rs): (op, args, result);
         result [] = the real function panicked, [v..] = returned value(s) ---- *)
 Definition o1 (r : option Z) : list Z := match r with Some v => [v] | None => [] end.
@@ -408,6 +427,17 @@ Definition eval_op (op : Z) (args : list Z) : list Z :=
   | 46, [v] => o1 (t_half v)                       (* Cmap4: seg_count_x2 / 2 *)
   | 47, [l; r] => o1 (t_subtract l r)              (* hmtx: num_glyphs - number_of_h_metrics *)
   | 48, [l; r] => o1 (t_add l r)                   (* gvar: glyph_count + 1 *)
+  | 50, [x; y; sc] => match delta_apply_scalar x sc, delta_apply_scalar y sc with
+                      | Some a, Some b => [a; b] | _, _ => [] end
+  | 51, [v; sc] => o1 (delta_apply_scalar v sc)
+  | 52, [cp; sc; ec; sg] => oo (cmap12_one_group cp sc ec sg)
+  | 53, [n; m; gid] =>
+      match hmtx_advance_ix n gid, hmtx_lsb_ix n m gid with
+      | Some a, Some l =>
+          [match a with Some k => k | None => -1 end;
+           match l with Some (0, k) => k | Some (_, j) => 1000 + j | None => -1 end]
+      | _, _ => []
+      end
   | 33, [a; b] => o1 (fx_add_assign 32 a b)         (* Fixed += / F26Dot6 += *)
   | 34, [a; b] => o1 (fx_sub_assign 32 a b)
   | 35, [a; b] => o1 (fx_add_assign 16 a b)         (* F2Dot14 += *)
